@@ -399,6 +399,7 @@ def run(ctx):
                                    lambda c: names.arg_order(c, anchored),
                                    lambda c: names.col_byname(c, anchored),
                                    lambda c: names.global_state(c, anchored),
+                                   lambda c: names.field_state(c, anchored),
                                    lambda c: names.time_rtol(c, anchored),
                                    lambda c: names.zero_by_sum(c, anchored)]
     # shared mutable state in the anchored modules makes every for-all-inputs claim depend on the
